@@ -2,6 +2,11 @@
 CLAIMED = {
     "C01": ("SMT (z3 nonlinear real arithmetic) over symbolic execution of the real tensor-assembly code",
             "4/C01", ""),
+    "C02": ("SMT (z3 nonlinear real arithmetic) over symbolic execution of whole propagate() runs of the real "
+            "density-matrix and state-vector propagators against an independently written Taylor/GKSL reference",
+            "4/C02", "Positivity of Lindblad-evolved states and closeness to exp(Lt) follow from the decided "
+            "identity (the code computes the degree-L Taylor polynomial of a generator of GKSL form) by the "
+            "standard theorems; they are not decided numerically."),
     "C03": ("SMT (z3 real arithmetic) over symbolic execution of the real Aggregate.build / coupling / "
             "transition_dipole / dipole_dipole_interaction code with symbolic molecular parameters", "4/C03", ""),
     "C05": ("SMT (z3 real arithmetic) over symbolic execution of the unit-conversion functions and every "
@@ -26,5 +31,5 @@ CLAIMED = {
 }
 _NYB = "check not built yet in this round (design in DESIGN.md section 4); not claimed until its harness is sound"
 NOT_APPLICABLE = {p: _NYB for p in
-                  ["C%02d" % i for i in range(2, 20) if i not in (3, 5, 13, 14, 16, 17, 19)]}
+                  ["C%02d" % i for i in range(2, 20) if i not in (2, 3, 5, 13, 14, 16, 17, 19)]}
 SOURCE_COMMITS = []
